@@ -13,7 +13,11 @@
         no position or price changes anywhere;
       - a cancel command identical to the one issued in the previous step requests nothing that
         the previous one had managed to send.
-    How requests are delivered and marked in flight is C03's oracle. *)
+      - link consistency: a request is reported sent only over an open link and failed only with the
+        error of its own link's condition; each link received exactly the sent requests naming it,
+        once; every sent cancel's order is CancelInFlight, every sent close order OpenInFlight
+        afterwards (delivery / marks only when no strategy generation can have run in the step).
+    The order-sensitive delivery rules are C03's oracle. *)
 From BV Require Export Corr.EngineCase.
 Local Open Scope N_scope.
 
@@ -72,7 +76,36 @@ Definition rest_same (a b : inst) : bool :=
 
 (** oracle's memory between steps: instruments as last observed, trading flag, and the previous
     step if it was a cancel command: its filter and the requests it managed to send *)
-Record cview := mkCView { cv_insts : list inst; cv_trading : bool; cv_prev : option (ifilter * list creq) }.
+Record cview := mkCView {
+  cv_insts : list inst; cv_trading : bool; cv_prev : option (ifilter * list creq);
+  cv_links : list link }.   (* the link table as configured (initial links, OpSetLink changes), mailboxes empty *)
+
+(** every request reported sent has an OPEN link; every request reported failed has a link that is
+    not open, and carries the error class of ITS OWN link's condition (no transmitter / unknown
+    index -> index error, closed channel -> terminated, unhealthy -> recoverable).  Together with
+    the scope check (sent + failed = the scope) this says: every in-scope request whose link is
+    healthy is sent, and nothing fails because of another request's link. *)
+Definition consistent {R} (ex : R -> N) (L : list link) (o : sendout R) : bool :=
+  forallb (fun r => link_open L (ex r)) (so_sent o) &&
+  forallb (fun p => negb (link_open L (ex (fst p))) &&
+                    errk_eqb (snd p) (err_of_stat (lstat_of L (ex (fst p))))) (so_errs o).
+(** each link received exactly the sent requests naming it, each once (as a multiset: the cancel
+    requests come out of a hash map) *)
+Definition delivered_ok (L : list link) (deliv : list (list xreq)) (sent : list xreq) : bool :=
+  Nat.eqb (length deliv) (length L) &&
+  forallb (fun p => perm_eqb xreq_eqb (snd p) (to_ex (fst p) sent)) (indexed deliv).
+(** every sent cancel's order is CancelInFlight afterwards (keeping its exchange data); every sent
+    open is tracked OpenInFlight afterwards *)
+Definition cancel_marks_ok (before after : list inst) (sent : list creq) : bool :=
+  forallb (fun r =>
+    match ord before (k_inst (cr_key r)) (k_cid (cr_key r)) with
+    | Some o => option_eqb order_eqb (ord after (k_inst (cr_key r)) (k_cid (cr_key r)))
+                                     (Some (with_st o (CIF (open_meta (o_st o)))))
+    | None => false
+    end) sent.
+Definition open_marks_ok (after : list inst) (sent : list oreq) : bool :=
+  forallb (fun r => option_eqb order_eqb (ord after (k_inst (or_key r)) (k_cid (or_key r)))
+                                         (Some (order_of_req r))) sent.
 
 Definition the_command (trading_before : bool) (st : step) : option command :=
   match st_op st with
@@ -102,7 +135,10 @@ Definition untouched_ok (f : ifilter) (before after : list inst) : bool :=
 
 Definition oracle_step (v : cview) (st : step) : bool * cview :=
   let after := obs_insts (cv_insts v) (ob_insts (st_obs st)) in
-  let next prev := mkCView after (ob_trading (st_obs st)) prev in
+  let L := cv_links v in
+  let links' := match st_op st with OpSetLink e stt => updN L e (fun _ => link_of_stat stt) | _ => L end in
+  let next prev := mkCView after (ob_trading (st_obs st)) prev links' in
+  let deliv := ob_deliv (st_obs st) in
   match the_command (cv_trading v) st with
   | Some (CCancelOrders f) =>
       match the_report st with
@@ -117,7 +153,11 @@ Definition oracle_step (v : cview) (st : step) : bool * cview :=
                 else true
             | None => true
             end in
-          (scope_ok && frame_ok && repeat_ok,
+          let links_ok :=
+            consistent cr_ex L out &&
+            (maybe_generation v st ||
+             (delivered_ok L deliv (map XCancel (so_sent out)) && cancel_marks_ok (cv_insts v) after (so_sent out))) in
+          (scope_ok && frame_ok && repeat_ok && links_ok,
            next (if maybe_generation v st then None else Some (f, so_sent out)))
       | _ => (false, next None)
       end
@@ -130,7 +170,12 @@ Definition oracle_step (v : cview) (st : step) : bool * cview :=
                 match reqs_of co with [] => true | _ => false end &&
                 perm_eqb oreq_eqb (reqs_of oo) (expected_closes strat base f (cv_insts v)) in
               let frame_ok := maybe_generation v st || untouched_ok f (cv_insts v) after in
-              (scope_ok && frame_ok, next None)
+              let links_ok :=
+                consistent cr_ex L co && consistent or_ex L oo &&
+                (maybe_generation v st ||
+                 (delivered_ok L deliv (map XCancel (so_sent co) ++ map XOpen (so_sent oo)) &&
+                  open_marks_ok after (so_sent oo))) in
+              (scope_ok && frame_ok && links_ok, next None)
           | _ => (false, next None)
           end
       | CloseScripted _ _ => (true, next None)        (* a user strategy: not this property *)
@@ -145,7 +190,7 @@ Fixpoint oracle_run (v : cview) (steps : list step) : bool :=
   end.
 
 Definition prop_b (c : case) : bool :=
-  oracle_run (mkCView (insts (c_init c)) (trading (c_init c)) None) (c_steps c).
+  oracle_run (mkCView (insts (c_init c)) (trading (c_init c)) None (map clear_link (links (c_init c)))) (c_steps c).
 
 Definition judge (c : case) : N :=
   if valid_case c && negb (degenerate_b c) then judge_code (corr_b c) (prop_b c) 0 else 0%N.
